@@ -239,6 +239,7 @@ func (c *Cluster) newDcpAgent(name string) (*gocbcore.DCPAgent, error) {
 		IoConfig:           gocbcore.IoConfig{UseCollections: true},
 		KVConfig:           gocbcore.KVConfig{ConnectTimeout: 5 * time.Second},
 		DCPConfig:          gocbcore.DCPConfig{BufferSize: 16 << 20, UseExpiryOpcode: true},
+		EnableCCCPPoller:   true, // (go-dcp itself seeds its DCP agent over HTTP and follows the streaming bucket config)
 		ConfigPollerConfig: gocbcore.ConfigPollerConfig{CccpPollPeriod: 50 * time.Millisecond, CccpMaxWait: time.Second},
 	}, name, memd.DcpOpenFlagProducer)
 	if err != nil {
